@@ -1,8 +1,9 @@
 """Task / configuration classes for the repair of deprecated identifiers (C20): OldT / OldC become deprecated
 names of NewT / NewC when XV_DEPRECATE=1 (a workspace is first filled *before* the deprecation)"""
 import os
+from typing import Optional
 
-from experimaestro import Config, LightweightTask, Param, Task, deprecate
+from experimaestro import Config, LightweightTask, Meta, Param, Task, deprecate
 
 
 class NewC(Config):
@@ -23,8 +24,11 @@ class InitT(LightweightTask):
 
 
 class NewT(Task):
+    __xpmid__ = "Xv.Dep.NewT"      # (an explicit, mixed-case type identifier: it names the job folder as it is)
+
     n: Param[int]
     c: Param[NewC]
+    m: Meta[Optional[NewC]] = None
 
     def execute(self):
         pass
@@ -47,7 +51,10 @@ def make(j, old):
     if j == "1":
         return (OldT if old else NewT)(n=n, c=NewC(v=n)), []
     if j == "2":
-        return NewT(n=n, c=(OldC if old else NewC)(v=n)), [InitT(k=n)]
+        # (a value held by a Meta parameter, forced into the signature with setmeta(.., False))
+        from experimaestro import setmeta
+
+        return NewT(n=n, c=(OldC if old else NewC)(v=n), m=setmeta(NewC(v=100 + n), False)), [InitT(k=n)]
     return NewT(n=n, c=NewC(v=n)), [InitT(k=n)]
 
 
